@@ -897,17 +897,15 @@ def sec_box_eq(ck):
 
 # ===================================================================== __eq__ / __hash__ by CrossHair
 def xhair_start(ck):
-    L, NH = (3, 5) if ck.thorough else (2, 3)
-    r = c14_xhair.Runner(os.environ.get("VERIF_SCRATCH", os.path.join(core.ROOT, ".scratch")), 240 if ck.thorough else 60, L=L, NH=NH)
-    r.start()
+    L, NH = (3, 4) if ck.thorough else (2, 3)
+    r = c14_xhair.Runner(os.environ.get("VERIF_SCRATCH", os.path.join(core.ROOT, ".scratch")), 420 if ck.thorough else 60, L=L, NH=NH)
+    r.start([n for n, oid in c14_xhair.CONDITIONS.items() if ck.only is None or oid == ck.only])
     return r
 
 
 def xhair_collect(ck, r):
-    from concurrent.futures import ThreadPoolExecutor
-    names = list(c14_xhair.CONDITIONS)
-    with ThreadPoolExecutor(max_workers=8) as ex:
-        results = list(ex.map(r.collect, names))
+    names = list(r.procs)
+    results = [r.collect(n) for n in names]
     for name, (verdict, info, dt) in zip(names, results):
         oid = c14_xhair.CONDITIONS[name]
         ob = ck._new(oid)
